@@ -297,3 +297,168 @@ def rel_under(test: ast.AST, label: str):
         test, pos = test.operand, not pos
     r = rel_of(test)
     return r if pos else rel_negate(r)
+
+
+# ---------------------------------------------------------------- name-free value forms
+class _LoopVarCanon(ast.NodeTransformer):
+    """Loop variables -> `<iteration source>.position`; comprehension variables are named the same way, so a list
+    built by a comprehension and one built by a loop of appends read alike."""
+
+    def __init__(self, mapping: Dict[str, str]):
+        self.mapping = mapping
+
+    def _comp(self, node):
+        saved = self.mapping
+        self.mapping = dict(saved)
+        for g in node.generators:
+            g.iter = self.visit(g.iter)
+            src = norm(g.iter)
+            elts: List[ast.AST] = []
+
+            def flat(t):
+                if isinstance(t, (ast.Tuple, ast.List)):
+                    for e_ in t.elts:
+                        flat(e_)
+                else:
+                    elts.append(t)
+
+            flat(g.target)
+            for k, t in enumerate(elts):
+                if isinstance(t, ast.Name):
+                    canon = "<%s>.%d" % (src, k)
+                    while canon in self.mapping.values():
+                        canon += "'"
+                    self.mapping[t.id] = canon
+            g.target = self.visit(g.target)
+            g.ifs = [self.visit(i) for i in g.ifs]
+        if isinstance(node, ast.DictComp):
+            node.key = self.visit(node.key)
+            node.value = self.visit(node.value)
+        else:
+            node.elt = self.visit(node.elt)
+        self.mapping = saved
+        return node
+
+    visit_ListComp = visit_SetComp = visit_GeneratorExp = visit_DictComp = _comp
+
+    def visit_Name(self, node):
+        if node.id in self.mapping:
+            return ast.copy_location(ast.Name(id=self.mapping[node.id], ctx=node.ctx), node)
+        return node
+
+
+def _loop_targets(f: Func) -> Dict[str, List[Tuple[ast.AST, int]]]:
+    """Names bound by a for target or by tuple unpacking, with the binding statement and the position."""
+    out: Dict[str, List[Tuple[ast.AST, int]]] = {}
+    for n in walk_no_nested(f.node):
+        if isinstance(n, ast.Assign) and len(n.targets) == 1 and isinstance(n.targets[0], (ast.Tuple, ast.List)):
+            # a, b = <value>: the k-th component of that value
+            for k, t in enumerate(n.targets[0].elts):
+                if isinstance(t, ast.Name):
+                    out.setdefault(t.id, []).append((n, k))
+        if isinstance(n, ast.For):
+            elts = []
+
+            def flat(t):
+                if isinstance(t, (ast.Tuple, ast.List)):
+                    for e in t.elts:
+                        flat(e)
+                else:
+                    elts.append(t)
+
+            flat(n.target)
+            for k, t in enumerate(elts):
+                if isinstance(t, ast.Name):
+                    out.setdefault(t.id, []).append((n, k))
+    return out
+
+
+def value_form(e: ast.AST, f: Func, at: Optional[ast.AST] = None, depth: int = 4, _level: int = 0) -> str:
+    return norm(_value_ast(e, f, at, depth, _level))
+
+
+def _value_ast(e: ast.AST, f: Func, at: Optional[ast.AST] = None, depth: int = 4, _level: int = 0) -> ast.AST:
+    """Text of `e` that does not depend on how f names its locals: single-definition locals are replaced by their
+    definitions, loop variables by `<iteration source>.position`, comprehension variables by their nesting position.
+    `at` (a node of f at which e is evaluated) selects the enclosing loop when a loop variable name is reused."""
+    import copy
+
+    x = expand_locals(e, f, depth)
+    lt = _loop_targets(f)
+    mapping: Dict[str, str] = {}
+    picked: List[Tuple[int, str, str]] = []
+    used = {n.id for n in ast.walk(x) if isinstance(n, ast.Name)}
+    enclosing: List[ast.AST] = []
+    if at is not None:
+        pm = parents_map(f.node)
+        enclosing = [a for a in ancestors(at, pm) if isinstance(a, ast.For)]
+    for name in used & set(lt):
+        cands = lt[name]
+        pick = None
+        if len(cands) == 1:
+            pick = cands[0]
+        else:
+            for a in enclosing:
+                hit = [c for c in cands if c[0] is a]
+                if hit:
+                    pick = hit[0]
+                    break
+            if pick is None:
+                forms = {(value_form(_src_of(c[0]), f, c[0], depth, _level + 1) if _level < 3 else norm(_src_of(c[0])), c[1]) for c in cands}
+                if len(forms) == 1:
+                    pick = cands[0]
+        if pick is not None:
+            loop, k = pick
+            if isinstance(loop, ast.Assign) and isinstance(loop.value, ast.Call):
+                # a, b = g(...): "component k of the n-th call of g"; the arguments of that call are a fact of their own
+                ftxt = norm(loop.value.func)
+                same = sorted((c_.lineno, c_.col_offset) for c_ in walk_no_nested(f.node) if isinstance(c_, ast.Call) and norm(c_.func) == ftxt)
+                src = "%s(...)#%d" % (ftxt, same.index((loop.value.lineno, loop.value.col_offset)))
+            else:
+                src = value_form(_src_of(loop), f, loop, depth, _level + 1) if _level < 3 else norm(_src_of(loop))
+            picked.append((loop.lineno, name, "<%s>.%d" % (src, k)))
+    for _, name, canon in sorted(picked):
+        while canon in mapping.values():
+            canon += "'"
+        mapping[name] = canon
+    y = _LoopVarCanon(mapping).visit(copy.deepcopy(x))
+    # what is left are locals with several definitions: named by first occurrence inside this expression
+    assigned = _assigned_names(f) - set(f.params)
+    order: Dict[str, str] = {}
+
+    class Rest(ast.NodeTransformer):
+        def visit_Name(self, node):
+            if node.id in assigned:
+                if node.id not in order:
+                    order[node.id] = "M%d" % len(order)
+                return ast.copy_location(ast.Name(id=order[node.id], ctx=node.ctx), node)
+            return node
+
+    return Rest().visit(y) if _level == 0 else y
+
+
+def _src_of(binder: ast.AST) -> ast.AST:
+    return binder.iter if isinstance(binder, ast.For) else binder.value
+
+
+def _assigned_names(f: Func) -> Set[str]:
+    out: Set[str] = set()
+    for n in walk_no_nested(f.node):
+        if isinstance(n, ast.Assign):
+            for t in n.targets:
+                out |= {x.id for x in ast.walk(t) if isinstance(x, ast.Name) and isinstance(x.ctx, ast.Store)}
+        elif isinstance(n, (ast.AugAssign, ast.AnnAssign)):
+            out |= {x.id for x in ast.walk(n.target) if isinstance(x, ast.Name)}
+        elif isinstance(n, ast.For):
+            out |= {x.id for x in ast.walk(n.target) if isinstance(x, ast.Name)}
+        elif isinstance(n, ast.With):
+            for it in n.items:
+                if it.optional_vars is not None:
+                    out |= {x.id for x in ast.walk(it.optional_vars) if isinstance(x, ast.Name)}
+    return out
+
+
+def comp_elt_form(comp: ast.AST, f: Func, at: Optional[ast.AST] = None) -> str:
+    """Value form of the element of a list comprehension, its variables named like loop variables."""
+    y = _value_ast(comp, f, at)
+    return norm(y.elt) if isinstance(y, (ast.ListComp, ast.SetComp, ast.GeneratorExp)) else norm(y)
